@@ -1,4 +1,6 @@
 """C01 - Derivative returns the true n-th derivative within the accuracy envelope (partial)."""
+import math
+
 import numpy as np
 
 from . import exprs, pipe
@@ -121,6 +123,33 @@ def sweep(ctx, N):
     ctx.cov['sweep_expressions'] = done
 
 
+def large_x_cases(ctx):
+    """Points far from the origin (|x| = 27 .. 100): the default steps scale with the nominal step log(1.718 + |x|) >= 1, so functions that vary on
+    a unit scale must still be resolved.  sin and cos(0.7 x) with their closed-form derivatives; envelope as in the sweep (local scale 1)."""
+    import numdifftools as nd
+    for fname, f, dk in (('np.sin(x)', np.sin, lambda x, k: math.sin(x + k * math.pi / 2)),
+                         ('np.cos(0.7*x)', lambda x: np.cos(0.7 * x), lambda x, k: 0.7 ** k * math.cos(0.7 * x + k * math.pi / 2))):
+        for x0 in (27.0, -55.0, 80.0, 100.0):
+            for method in ('central', 'forward', 'backward', 'complex'):
+                for n in (1, 2, 3, 4):
+                    for order in (2, 4):
+                        try:
+                            got = float(np.ravel(nd.Derivative(f, n=n, method=method, order=order)(x0))[0])
+                        except Exception as ex:   # noqa
+                            ctx.violation('raises:%s:%d' % (method, n), 'nd.Derivative(lambda x: %s, n=%d, method=%r, order=%d)(%r) raises %r' % (fname, n, method, order, x0, ex), {'f': fname, 'x': x0, 'n': n, 'method': method, 'order': order})
+                            continue
+                        ctx.count(1, ('large-x', method, n))
+                        exact = dk(x0, n)
+                        err = abs(got - exact)
+                        ctx.cov['large_x_worst'] = max(ctx.cov.get('large_x_worst', 0.0), err / (100 * ENVELOPE[n]))
+                        if not err <= 100 * ENVELOPE[n]:
+                            return ctx.violation('accuracy-large-x:%s:%d' % (method, n),
+                                                 'nd.Derivative(lambda x: %s, n=%d, method=%r, order=%d)(%r) = %r, exact %r (error %.3g, envelope %.3g x local scale 1)' % (
+                                                     fname, n, method, order, x0, got, exact, err, 100 * ENVELOPE[n]),
+                                                 {'f': fname, 'x': x0, 'n': n, 'method': method, 'order': order, 'got': got, 'exact': exact})
+    return False
+
+
 def run(ctx):
     import numdifftools as nd
     proof_stage(ctx, ['Props/C01.v', 'Props/C01b.v'])
@@ -187,6 +216,7 @@ def run(ctx):
     ctx.cov['traces_validated_against_impl'] = len(cases)
     ctx.cov['correspondence_disagreements'] = nbad
     ctx.cov['skipped'] = skipped
+    large_x_cases(ctx)
     sweep(ctx, ctx.n(25, 400) if not ctx.broken else 150)
     ctx.assumptions += ['PARTIAL: proved = exactness of the whole pipeline on estimates of the modelled form (hence on polynomials, via C06/C07/C13) and n = 0; NOT proved = the accuracy envelope for non-polynomial analytic f (explored by the sweep against mpmath Taylor coefficients, with an envelope calibrated on the unchanged tree)',
                         'difference quotients, pinv rows and h**n are recorded from the run (stencils: C05/C06)']
